@@ -103,7 +103,7 @@ def load_known(path=None):
         with open(path) as f:
             for line in f:
                 line = line.strip()
-                if not line or line.startswith("#"):
-                    continue
+                if not line or line.startswith("#") or line.startswith("fixed:"):
+                    continue  # fixed entries are a record only: they suppress nothing
                 known.append(json.loads(line))
     return known
